@@ -9350,3 +9350,153 @@ func containsContinue(n ast.Node) bool {
 	})
 	return found
 }
+
+// P4n (C10): nil is a value too. A type switch over an interface whose default clause aborts is exhaustive (rule P4)
+// only for the dynamic types; a nil interface value goes to the default as well. Where the switched variable was last
+// assigned from a function of the module that can return nil (a `return nil` statement, or a `case nil:` clause of
+// its own — dsl.GetUnderlyingType returns the single case of a one-case union, which is nil for `[null]`), the switch
+// has a `case nil` clause or a nil test of the variable stands between the assignment and the switch.
+func ruleNilReachesNoAbortingDefault(c *core.Ctx) {
+	const rule = "P4n"
+	c.Rule(rule, "pkg/dsl: a type switch with an aborting default, over a variable last assigned from a module function that can return nil, has a `case nil` or is preceded by a nil test of that variable", 1)
+	p := c.Pkg("pkg/dsl")
+	if p == nil {
+		c.Undecided(rule, "anchor/pkg/dsl", 0, "package not loaded")
+		return
+	}
+	info := p.TypesInfo
+	canReturnNil := map[*types.Func]bool{}
+	mayBeNil := func(f *types.Func) bool {
+		f = f.Origin()
+		if v, ok := canReturnNil[f]; ok {
+			return v
+		}
+		canReturnNil[f] = false
+		d := c.Decl(f)
+		if d == nil || d.Body == nil {
+			return false
+		}
+		sig := f.Type().(*types.Signature)
+		if sig.Results().Len() != 1 {
+			return false
+		}
+		if _, isIface := sig.Results().At(0).Type().Underlying().(*types.Interface); !isIface {
+			return false
+		}
+		res := false
+		ast.Inspect(d.Body, func(nn ast.Node) bool {
+			switch x := nn.(type) {
+			case *ast.FuncLit:
+				return false
+			case *ast.ReturnStmt:
+				if len(x.Results) == 1 && isNilIdent(x.Results[0]) {
+					res = true
+				}
+			}
+			return true
+		})
+		canReturnNil[f] = res
+		return res
+	}
+	n := 0
+	for _, d := range c.AllDecls() {
+		if c.DeclPkg(d) != p || d.Body == nil || c.IsTestFile(d.Pos()) {
+			continue
+		}
+		ast.Inspect(d.Body, func(nn ast.Node) bool {
+			ts, ok := nn.(*ast.TypeSwitchStmt)
+			if !ok {
+				return true
+			}
+			var subj ast.Expr
+			switch a := ts.Assign.(type) {
+			case *ast.AssignStmt:
+				subj = a.Rhs[0].(*ast.TypeAssertExpr).X
+			case *ast.ExprStmt:
+				subj = a.X.(*ast.TypeAssertExpr).X
+			}
+			sobj := identObj(info, subj)
+			var direct *types.Func
+			if sobj == nil {
+				// `switch t := F(x).(type)`: the call itself is the subject
+				if ce, ok := ast.Unparen(subj).(*ast.CallExpr); ok {
+					if f := core.Callee(info, ce); f != nil && core.InModule(f) && mayBeNil(f) {
+						direct = f
+					}
+				}
+				if direct == nil {
+					return true
+				}
+			}
+			hasNil, abortingDefault := false, false
+			for _, cl := range ts.Body.List {
+				cc := cl.(*ast.CaseClause)
+				for _, e := range cc.List {
+					if isNilIdent(e) {
+						hasNil = true
+					}
+				}
+				if cc.List == nil {
+					for _, s := range cc.Body {
+						if es, ok := s.(*ast.ExprStmt); ok {
+							if ce, ok := es.X.(*ast.CallExpr); ok && core.NoReturn(info, ce) {
+								abortingDefault = true
+							}
+						}
+					}
+				}
+			}
+			if !abortingDefault {
+				return true
+			}
+			if direct != nil {
+				n++
+				c.Check(hasNil, rule, fmt.Sprintf("%s/switch %s.(type)#%d", c.FuncName(d), types.ExprString(subj), n), ts.Pos(), "`case nil` present",
+					fmt.Sprintf("the type switch is over the result of %s, which can return nil, and has no `case nil`: a nil result reaches the aborting default", direct.Name()))
+				return true
+			}
+			// the last assignment to the subject in front of the switch
+			var lastRhs ast.Expr
+			lastPos := token.NoPos
+			ast.Inspect(d.Body, func(m ast.Node) bool {
+				as, ok := m.(*ast.AssignStmt)
+				if !ok || as.Pos() >= ts.Pos() || len(as.Lhs) != len(as.Rhs) {
+					return true
+				}
+				for i, l := range as.Lhs {
+					if identObj(info, l) == sobj && as.Pos() > lastPos {
+						lastPos, lastRhs = as.Pos(), as.Rhs[i]
+					}
+				}
+				return true
+			})
+			ce, ok := ast.Unparen(lastRhs).(*ast.CallExpr)
+			if lastRhs == nil || !ok {
+				return true
+			}
+			f := core.Callee(info, ce)
+			if f == nil || !core.InModule(f) || !mayBeNil(f) {
+				return true
+			}
+			n++
+			key := fmt.Sprintf("%s/switch %s.(type)#%d", c.FuncName(d), types.ExprString(subj), n)
+			tested := false
+			ast.Inspect(d.Body, func(m ast.Node) bool {
+				be, ok := m.(*ast.BinaryExpr)
+				if !ok || be.Pos() <= lastPos || be.Pos() >= ts.Pos() || (be.Op != token.EQL && be.Op != token.NEQ) {
+					return true
+				}
+				if isNilIdent(be.Y) && identObj(info, be.X) == sobj || isNilIdent(be.X) && identObj(info, be.Y) == sobj {
+					tested = true
+				}
+				return true
+			})
+			c.Check(hasNil || tested, rule, key, ts.Pos(), "nil is handled in front of the aborting default",
+				fmt.Sprintf("`%s` was last assigned from %s, which can return nil, and the type switch has neither a `case nil` nor a nil test in front of it: a nil value reaches the aborting default and yardl panics instead of reporting an error", types.ExprString(subj), f.Name()))
+			return true
+		})
+	}
+	if n == 0 {
+		c.Undecided(rule, "anchor/switch after a nil-returning call", 0, "no type switch with an aborting default over the result of a nil-returning function found in pkg/dsl")
+	}
+}
